@@ -3,6 +3,7 @@
      T0   model of MIR_output of the described context
      W1   model of the raw (uncompressed) bytes of MIR_write_with_func
      RB   ok / ERR:why   model of MIR_read_with_func on W1;  T1 = model text of what was read
+     SC   ok / ERR:why   model of MIR_scan_string on T0;  T2 = model text of what was scanned; SC2/T3 once more
    With argument "table" prints the model's insn table in the format of `c11_io table`. *)
 module M = C11x
 
@@ -159,6 +160,18 @@ let run_case line =
       if t1 = t0 then Buffer.add_string b "|T1==" else Buffer.add_string b ("|T1=" ^ hex_of_bytes t1);
       Buffer.add_string b (if ms' = List.map M.norm_module ms then "|AST=norm" else "|AST=differs")
   end;
+  (match M.scan_ctx M.parseF M.parseD M.parseLD t0 with
+   | M.Err why -> Buffer.add_string b ("|SC=ERR:" ^ ocaml_string why)
+   | M.Ok ms2 ->
+     Buffer.add_string b "|SC=ok";
+     let t2 = text ms2 in
+     if t2 = t0 then Buffer.add_string b "|T2==" else Buffer.add_string b ("|T2=" ^ hex_of_bytes t2);
+     (match M.scan_ctx M.parseF M.parseD M.parseLD t2 with
+      | M.Err why -> Buffer.add_string b ("|SC2=ERR:" ^ ocaml_string why)
+      | M.Ok ms3 ->
+        Buffer.add_string b "|SC2=ok";
+        let t3 = text ms3 in
+        if t3 = t2 then Buffer.add_string b "|T3==" else Buffer.add_string b ("|T3=" ^ hex_of_bytes t3)));
   print_endline (Buffer.contents b)
 
 let mode_num = function M.MUndef -> 0 | M.MReg -> 1 | M.MInt -> 3 | M.MFloat -> 5 | M.MDouble -> 6 | M.MLdouble -> 7 | M.MLabel -> 12
